@@ -63,14 +63,14 @@ theorem SafeVals.mono {safes vals} {ex ex' : List Nat} (h : SafeVals safes vals 
     except on outputs the user commanded during that pause -/
 def WriteOk (safes : List (Option Int)) (w : WriteRec) : Prop :=
   (w.active = false → SafeVals safes w.vals []) ∧
-  (w.active = true → w.paused = true → SafeVals safes w.vals w.touched)
+  (w.active = true → w.paused = true → SafeVals safes w.vals w.touchedRun)
 
 /-- The C08 invariant of the engine fields. `rphase = 2` ⇔ between the two halves of a Restart. -/
 structure Safe8 (cfg : Cfg) (a : A) : Prop where
   /-- no run active (and not inside a Restart): the hardware image is safe -/
   hw : a.core.started = false → a.rphase ≠ 2 → SafeVals cfg.safes a.core.hw []
   /-- paused run: the output *tags* are safe except where the user commanded them during this pause -/
-  tags : a.core.started = true → a.core.paused = true → SafeVals cfg.safes a.core.outs a.core.touched
+  tags : a.core.started = true → a.core.paused = true → SafeVals cfg.safes a.core.outs a.core.touchedRun
   /-- every write so far was acceptable -/
   log : ∀ w ∈ a.core.writes, WriteOk cfg.safes w
 
@@ -78,6 +78,13 @@ theorem stopFinish_started (cfg : Cfg) (c : Core) : (c.stopFinish cfg).started =
 
 theorem stopFinish_paused (cfg : Cfg) (c : Core) : (c.stopFinish cfg).paused = false := by
   unfold Core.stopFinish Core.writeImage; simp only []; split <;> rfl
+
+theorem setError_running (cfg : Cfg) (hes : cfg.errSafe = true) (c : Core) (hst : c.started = true) :
+    (c.setError cfg).writes = c.writes ∧ (c.setError cfg).hw = c.hw ∧
+    (c.paused = true → (c.setError cfg).outs = c.outs ∧ (c.setError cfg).touchedRun = c.touchedRun) ∧
+    (c.paused = false → (c.setError cfg).outs = applySafe cfg.safes c.outs) := by
+  unfold Core.setError
+  cases hp : c.paused <;> simp [hst, hes]
 
 /-- all repairs that C08 needs -/
 def Repaired (cfg : Cfg) : Prop :=
@@ -96,9 +103,11 @@ theorem safe8_step (cfg : Cfg) (hc : Repaired cfg) (a : A) (act : Act) (hA : C06
     exact ⟨fun hs => by simp [Act.apply, Core.restartFinish] at hs,
       fun _ hp => by simp [Act.apply, Core.restartFinish] at hp, h3⟩
   case pause =>
-    refine ⟨h1, fun _ _ => ?_, h3⟩
     simp only [Act.apply, Core.pause]
-    exact safeVals_applySafe _ _
+    split
+    · exact ⟨h1, h2, h3⟩
+    · refine ⟨h1, fun _ _ => ?_, h3⟩
+      exact (safeVals_applySafe _ _).mono (fun i hi => by cases hi)
   case unpause =>
     exact ⟨h1, fun _ hp => by simp [Act.apply, Core.unpause] at hp, h3⟩
   case hold => exact ⟨h1, h2, h3⟩
@@ -141,19 +150,18 @@ theorem safe8_step (cfg : Cfg) (hc : Repaired cfg) (a : A) (act : Act) (hA : C06
       rcases hen with h | h
       · cases h
       · exact h
+    obtain ⟨e1, e2, e3, e4⟩ := setError_running cfg hes a.core hst
     refine ⟨fun hs => ?_, fun _ _ => ?_, ?_⟩
     · have : (Act.apply cfg Act.error a).core.started = a.core.started := setError_started cfg a.core
       rw [this, hst] at hs; cases hs
-    · simp only [Act.apply, Core.setError, hes, hst, Bool.true_and]
+    · show SafeVals cfg.safes (a.core.setError cfg).outs (a.core.setError cfg).touchedRun
       by_cases hp : a.core.paused = true
-      · simp only [hp, Bool.not_true, Bool.false_eq_true, if_false, if_true]
-        exact h2 hst hp
-      · simp only [hp, Bool.not_false, if_true]
-        exact safeVals_applySafe _ _
+      · rw [(e3 hp).1, (e3 hp).2]; exact h2 hst hp
+      · rw [e4 (by simpa using hp)]
+        exact (safeVals_applySafe _ _).mono (fun i hi => by cases hi)
     · intro w hw
-      have : (Act.apply cfg Act.error a).core.writes = a.core.writes := by
-        simp only [Act.apply, Core.setError]; split <;> rfl
-      rw [this] at hw; exact h3 w hw
+      have hw' : w ∈ (a.core.setError cfg).writes := hw
+      rw [e1] at hw'; exact h3 w hw'
   case write =>
     simp only [Act.apply, Core.writeImage]
     by_cases hs : a.core.started = true
@@ -182,6 +190,9 @@ theorem safe8_step (cfg : Cfg) (hc : Repaired cfg) (a : A) (act : Act) (hA : C06
     · have hp' : a.core.paused = true := hp
       rw [hen hpg rfl] at hp'; cases hp'
     · exact safeVals_set _ _ _ _ _ (h2 hs hp)
+  case userReq i =>
+    simp only [Act.apply, Core.userRequest]
+    split <;> exact ⟨h1, h2, h3⟩
 
 /-! ## Operation sequences -/
 
@@ -214,7 +225,8 @@ theorem runO_safe (cfg : Cfg) (hc : Repaired cfg) (ops : List OpO) (o : OState) 
       · rfl
     obtain ⟨r, q⟩ := stepO_ref (cfg := cfg) o op hq.1 h1 h2.trk hA
     have both := r.inv (P := fun a => C06.Agree a ∧ Safe8 cfg a)
-      (fun a act hp hen => ⟨C06.agree_step cfg hc.1 a act hp.1 hen, safe8_step cfg hc a act hp.1 hp.2 hen⟩)
+      (fun a act hp hen => ⟨C06.agree_step cfg hc.1 _ (fun h => by cases h) a act hp.1 hen,
+        safe8_step cfg hc a act hp.1 hp.2 hen⟩)
       ⟨h2, h3⟩
     exact ih _ hq.2 q both.1 both.2
 
@@ -260,7 +272,17 @@ theorem inactive_write_is_first (cfg : Cfg) (a : A) (act : Act) :
     · exact Or.inl hw
   case error =>
     have : (Act.apply cfg Act.error a).core.writes = a.core.writes := by
-      simp only [Act.apply, Core.setError]; split <;> rfl
+      simp only [Act.apply, Core.setError]; split
+      · rfl
+      · split <;> rfl
+    exact Or.inl (this ▸ hw)
+  case pause =>
+    have : (Act.apply cfg Act.pause a).core.writes = a.core.writes := by
+      simp only [Act.apply, Core.pause]; split <;> rfl
+    exact Or.inl (this ▸ hw)
+  case userReq i =>
+    have : (Act.apply cfg (Act.userReq i) a).core.writes = a.core.writes := by
+      simp only [Act.apply, Core.userRequest]; split <;> rfl
     exact Or.inl (this ▸ hw)
   case ev e =>
     cases e <;> simp only [Act.apply, Core.event] at hw <;> first | exact Or.inl hw | (split at hw <;> exact Or.inl hw)
@@ -274,7 +296,7 @@ theorem inactive_write_is_first (cfg : Cfg) (a : A) (act : Act) :
 theorem safe_after_paused_tick (cfg : Cfg) (hc : Repaired cfg) (outs : List Int) (ops : List OpO) (t : TickInO)
     (hq : QuietFrom cfg (initO cfg outs) (ops ++ [.tick t])) :
     let s := (runO cfg (initO cfg outs) (ops ++ [.tick t])).base
-    s.core.started = true → s.core.paused = true → SafeVals cfg.safes s.core.hw s.core.touched := by
+    s.core.started = true → s.core.paused = true → SafeVals cfg.safes s.core.hw s.core.touchedRun := by
   intro s hs hp
   have hrun : runO cfg (initO cfg outs) (ops ++ [.tick t]) =
       tickO cfg (runO cfg (initO cfg outs) ops) t := by
@@ -304,11 +326,12 @@ theorem safe_after_paused_tick (cfg : Cfg) (hc : Repaired cfg) (outs : List Int)
           · exact absurd (h2.stopped_iff.mpr hb) hs'
           · rfl
         obtain ⟨r, q⟩ := stepO_ref (cfg := cfg) o x hq'.1 h1 h2.trk hA'
-        exact ih _ hq'.2 q (r.inv (fun a act => C06.agree_step cfg hc.1 a act) h2)
+        exact ih _ hq'.2 q (r.inv (fun a act => C06.agree_step cfg hc.1 _ (fun h => by cases h) a act) h2)
     exact this ops _ hq1 (C06.allReq_init cfg outs) (C06.agree_init cfg outs)
   obtain ⟨r, _⟩ := preWrite_ref (cfg := cfg) (runO cfg (initO cfg outs) ops) t hok hall hA.trk
   have both := r.inv (P := fun a => C06.Agree a ∧ Safe8 cfg a)
-    (fun a act hp hen => ⟨C06.agree_step cfg hc.1 a act hp.1 hen, safe8_step cfg hc a act hp.1 hp.2 hen⟩)
+    (fun a act hp hen => ⟨C06.agree_step cfg hc.1 _ (fun h => by cases h) a act hp.1 hen,
+        safe8_step cfg hc a act hp.1 hp.2 hen⟩)
     ⟨hA, hS⟩
   have hcore : s.core = (preWrite cfg (runO cfg (initO cfg outs) ops) t).base.core.writeImage := by
     show (runO cfg (initO cfg outs) (ops ++ [.tick t])).base.core = _
@@ -333,7 +356,7 @@ def asIs8 : Cfg := { repaired safes3 with startWrite := false, pauseGate := fals
 theorem asIs_no_write_at_engine_start :
     (runO asIs8 (initO asIs8 [5, 7, 9]) [tk, tk]).base.core.writes = [] ∧
     (runO (repaired8 safes3) (initO (repaired8 safes3) [5, 7, 9]) [tk, tk]).base.core.writes
-      = [⟨false, false, [0, 1, 9], []⟩] := by
+      = [⟨false, false, [0, 1, 9], [], []⟩] := by
   decide +kernel
 
 /-- a method command that writes 55 to output 0 for nine ticks, scheduled by the interpreter -/
@@ -344,7 +367,7 @@ def tkLong : OpO := .tick { adv := 8, inc := 8, items := [.u 1 55 9] }
 theorem asIs_method_command_writes_while_paused :
     let ops := [OpO.user .start, tk, tkLong, tk, .user .pause, tk, tk]
     let s := (runO asIs8 (initO asIs8 [5, 7, 9]) ops).base
-    s.core.paused = true ∧ s.core.hw = [55, 1, 9] ∧ s.core.touched = [] ∧
+    s.core.paused = true ∧ s.core.hw = [55, 1, 9] ∧ s.core.touchedRun = [] ∧
     (let s' := (runO (repaired8 safes3) (initO (repaired8 safes3) [5, 7, 9]) ops).base
      s'.core.paused = true ∧ s'.core.hw = [0, 1, 9]) := by
   decide +kernel
@@ -353,7 +376,7 @@ theorem asIs_method_command_writes_while_paused :
 theorem asIs_error_pause_keeps_outputs :
     let ops := [OpO.user .start, tk, .userU 0 60 1, tk, .errApi, tk]
     let s := (runO asIs8 (initO asIs8 [5, 7, 9]) ops).base
-    s.core.paused = true ∧ s.core.sys = .paused ∧ s.core.hw = [60, 1, 9] ∧ s.core.touched = [] ∧
+    s.core.paused = true ∧ s.core.sys = .paused ∧ s.core.hw = [60, 1, 9] ∧ s.core.touchedRun = [] ∧
     (let s' := (runO (repaired8 safes3) (initO (repaired8 safes3) [5, 7, 9]) ops).base
      s'.core.paused = true ∧ s'.core.hw = [0, 1, 9] ∧ s'.core.prev = some [some 60, some 1, none]) := by
   decide +kernel
@@ -365,7 +388,7 @@ example :
     let ops := [OpO.user .start, tk, tkLong, tk, .user .pause, tk, .userU 0 60 1, tk]
     QuietFrom cfg (initO cfg [5, 7, 9]) ops ∧
     (let s := (runO cfg (initO cfg [5, 7, 9]) ops).base
-     s.core.started = true ∧ s.core.paused = true ∧ s.core.hw = [60, 1, 9] ∧ s.core.touched = [0]) := by
+     s.core.started = true ∧ s.core.paused = true ∧ s.core.hw = [60, 1, 9] ∧ s.core.touched = [0] ∧ s.core.touchedRun = [0]) := by
   refine ⟨?_, by decide +kernel⟩
   simp [QuietFrom, OpO.okAt, TickInO.okAt, tk, tkLong, ItemO.quiet]
 
